@@ -229,6 +229,16 @@ func vrtExternal(fn *ssa.Function, name string) externalFn {
 				if m, order, ok := E.model(nil); ok {
 					E.ReachModels[id] = Violation{Harness: E.Harness, Msg: "reach " + id, Kind: "reach", Model: m, Order: order}
 				}
+			} else if E.Replay == nil && (E.Paths == 5 || E.Paths == 40) {
+				// further path samples: the engine proved every assertion on this path for all
+				// values of the path condition, so the model must pass natively as well
+				// (differential check of the interpreter against the compiled code)
+				key := fmt.Sprintf("%s#p%d", id, E.Paths)
+				if _, ok := E.ReachModels[key]; !ok {
+					if m, order, ok := E.model(nil); ok {
+						E.ReachModels[key] = Violation{Harness: E.Harness, Msg: "reach " + id, Kind: "reach", Model: m, Order: order}
+					}
+				}
 			}
 			return nil
 		}
